@@ -99,12 +99,25 @@ func (r *registry) apply(data json.RawMessage, typ string) (json.RawMessage, str
 
 type failPlan struct{ label string }
 
+// failEcho is the type name some failing upcasters hand back with their error: the first name of the
+// world, which most chains start from (an already-visited type for them)
+var failEcho = "raw.A"
+
 var routingUpcasters, materializerReplays atomic.Int64
 
 func rawUp(label, to string, fp *failPlan) func(json.RawMessage) (json.RawMessage, string, error) {
 	return func(d json.RawMessage) (json.RawMessage, string, error) {
 		if fp.label == label {
-			return nil, "", fmt.Errorf("verif: injected upcast failure in %s", label)
+			// what a failing upcaster returns next to its error is up to it: nothing, or its input back
+			// under some type name (here: the declared target, or a name the chain has already seen)
+			err := fmt.Errorf("verif: injected upcast failure in %s", label)
+			switch vk.Hash64(label) % 3 {
+			case 1:
+				return d, to, err
+			case 2:
+				return d, failEcho, err
+			}
+			return nil, "", err
 		}
 		if len(label)%5 == 4 || strings.HasSuffix(label, "7") {
 			return d, to, nil // a rename-only migration: the data is handed on unchanged
